@@ -9,6 +9,7 @@ from lib.facts import norm, direct_place, const_int, place_fields, nophi, origin
 from lib import tables, extract
 from .common import Recorder
 
+INLINE = True      # crate-local helpers the rules do not know by name are inlined into their callers (lib/inline.py)
 EXPLANATION = (
     "Multiplicity/pairing rules over the one polymorphic MIR body of the sample recorder (all type shapes, sizes and "
     "thread counts at once; size_of/needs_drop are opaque calls). R01.1: on each of the three sample-loop paths the "
